@@ -941,17 +941,26 @@ enum Res {
 async fn run_case(mock: &Mock, case: &Case) -> (Res, Vec<Vec<u8>>) {
     *mock.plan.lock().unwrap_or_else(|e| e.into_inner()) = case.plan.clone();
     mock.seen.lock().unwrap_or_else(|e| e.into_inner()).clear();
-    let adapter = MojangAdapter::default().with_server_id(case.server_id.clone());
     let client: SocketAddr = SocketAddr::from(([127, 0, 0, 1], 54321));
-    let fut = adapter.authenticate(
-        &client,
-        ("play.example.org", 25565),
-        767,
-        (case.name.as_str(), &case.uuid),
-        &case.secret,
-        &case.public,
-    );
-    let res = match tokio::time::timeout(Duration::from_secs(20), fut).await {
+    // every other case goes through the adapter as the application builds it from its
+    // configuration (passage::adapter::authentication), the rest calls MojangAdapter directly
+    let via_config = case.idx % 2 == 1;
+    let outcome = if via_config {
+        use passage::adapter::authentication::DynAuthenticationAdapter;
+        use passage::config::{AuthenticationAdapter as AuthCfg, MojangAuthentication};
+        match DynAuthenticationAdapter::from_config(AuthCfg::Mojang(MojangAuthentication { server_id: case.server_id.clone() })).await {
+            Ok(adapter) => {
+                let fut = adapter.authenticate(&client, ("play.example.org", 25565), 767, (case.name.as_str(), &case.uuid), &case.secret, &case.public);
+                tokio::time::timeout(Duration::from_secs(20), fut).await
+            }
+            Err(e) => Ok(Err(passage_adapters::Error::FailedInitialization { adapter_type: "mojang", cause: e.to_string().into() })),
+        }
+    } else {
+        let adapter = MojangAdapter::default().with_server_id(case.server_id.clone());
+        let fut = adapter.authenticate(&client, ("play.example.org", 25565), 767, (case.name.as_str(), &case.uuid), &case.secret, &case.public);
+        tokio::time::timeout(Duration::from_secs(20), fut).await
+    };
+    let res = match outcome {
         Ok(Ok(p)) => Res::Ok(p),
         Ok(Err(e)) => Res::Err(format!("{e:?}").chars().take(300).collect()),
         Err(_) => Res::Timeout,
